@@ -183,7 +183,7 @@ mod verif_harness {
         law_u16()
     }
 
-    // @tier thorough
+    // @tier quick
     // @obligation every ASCII value of 0..=6 bytes put into an `i16` field: exact value or ParseErrorAtKey{key,"i16"}; no panic
     // @bounds 1 parameter, value length 0..=6 bytes
     // @functions ValueDeserializer::deserialize_i16 (parse_value!)
@@ -195,7 +195,7 @@ mod verif_harness {
         law_i16()
     }
 
-    // @tier thorough
+    // @tier quick
     // @obligation every ASCII value of 0..=10 bytes put into a `u32` field: exact value or ParseErrorAtKey{key,"u32"}; no panic (extreme numbers: 4294967295/4294967296)
     // @bounds 1 parameter, value length 0..=10 bytes
     // @functions ValueDeserializer::deserialize_u32 (parse_value!)
@@ -646,7 +646,7 @@ mod verif_harness {
         kani::cover!(shape == 0, "bare scalar");
     }
 
-    // @tier thorough
+    // @tier quick
     // @obligation name matching with three fields of different types under all 6 orders of arrival
     // @bounds 3 parameters, order chosen symbolically among the 6 permutations; u8 / bool / char values symbolic
     // @functions MapDeserializer::next_key_seed, MapDeserializer::next_value_seed, ValueDeserializer::{deserialize_u8,deserialize_bool,deserialize_char}
@@ -688,6 +688,80 @@ mod verif_harness {
             Err(_) => assert!(false, "three well-formed parameters were rejected"),
         }
         kani::cover!(perm == 5 && r.is_ok(), "fully reversed order");
+        std::mem::forget(r);
+    }
+
+    // @tier quick
+    // @obligation with two parameters, a malformed value is reported against ITS OWN key and type (ParseErrorAtKey{key, value's type}), whichever of the two fields is the malformed one and whatever the order of arrival; the well-formed one never turns the error into a success
+    // @bounds 2 parameters (u8 and bool fields) in symbolic order; one of them symbolic 0..=2 ASCII bytes, the other well-formed
+    // @functions MapDeserializer::next_value_seed, ValueDeserializer::{deserialize_u8,deserialize_bool} error path of parse_value!
+    #[kani::proof]
+    #[kani::unwind(6)]
+    #[kani::stub(std::fmt::format, fmt_stub)]
+    fn c15_error_names_the_right_key() {
+        #[derive(Deserialize)]
+        struct Two {
+            a: u8,
+            b: bool,
+        }
+        let mut buf = [0u8; 2];
+        let s = sym_ascii::<2>(&mut buf);
+        let bad_is_a: bool = kani::any();
+        let swapped: bool = kani::any();
+        let va: &str = if bad_is_a { s } else { "7" };
+        let vb: &str = if bad_is_a { "true" } else { s };
+        let params: [(&str, Cow<'_, str>); 2] = if swapped {
+            [("b", Cow::Borrowed(vb)), ("a", Cow::Borrowed(va))]
+        } else {
+            [("a", Cow::Borrowed(va)), ("b", Cow::Borrowed(vb))]
+        };
+        let r = Two::deserialize(PathDeserializer::new(&params));
+        let a_ok = !bad_is_a || ref_int(s.as_bytes(), false, 0, 255).is_some();
+        let b_ok = bad_is_a; // a 0..=2 byte value is never "true"/"false"
+        match &r {
+            Ok(_) => assert!(a_ok && b_ok, "a malformed parameter was accepted"),
+            Err(e) => {
+                assert!(!(a_ok && b_ok), "two well-formed parameters were rejected");
+                if !a_ok {
+                    assert!(is_parse_error_for(e, "a", "u8"), "the error does not name the malformed parameter `a` / its type");
+                } else {
+                    assert!(is_parse_error_for(e, "b", "bool"), "the error does not name the malformed parameter `b` / its type");
+                }
+            }
+        }
+        kani::cover!(r.is_err() && !bad_is_a && swapped, "second field malformed, reversed order");
+        kani::cover!(r.is_ok(), "both fine");
+        std::mem::forget(r);
+    }
+
+    // @tier quick
+    // @obligation a newtype-struct field follows the law of its inner type (here u8), and a unit-like `()` field accepts the parameter without inspecting it
+    // @bounds 2 parameters; the newtype value symbolic 0..=3 ASCII bytes
+    // @functions ValueDeserializer::{deserialize_newtype_struct,deserialize_unit,deserialize_u8}
+    #[kani::proof]
+    #[kani::unwind(5)]
+    #[kani::stub(std::fmt::format, fmt_stub)]
+    fn c15_value_newtype_and_unit() {
+        #[derive(Deserialize)]
+        struct W(u8);
+        #[derive(Deserialize)]
+        struct Two {
+            a: W,
+            #[allow(dead_code)]
+            b: (),
+        }
+        let mut buf = [0u8; 3];
+        let s = sym_ascii::<3>(&mut buf);
+        let params: [(&str, Cow<'_, str>); 2] = [("a", Cow::Borrowed(s)), ("b", Cow::Borrowed("x"))];
+        let r = Two::deserialize(PathDeserializer::new(&params));
+        let want = ref_int(s.as_bytes(), false, 0, 255);
+        match (&r, want) {
+            (Ok(o), Some(v)) => assert!(o.a.0 as i64 == v, "newtype field: wrong value"),
+            (Err(e), None) => assert!(is_parse_error_for(e, "a", "u8"), "newtype field: wrong error"),
+            _ => assert!(false, "newtype field: extraction and the reference reader disagree"),
+        }
+        kani::cover!(matches!(&r, Ok(o) if o.a.0 == 255), "newtype 255");
+        kani::cover!(r.is_err(), "rejected");
         std::mem::forget(r);
     }
 
